@@ -8,9 +8,10 @@ hooks_commits = []
 hf = os.path.join(V, "tools", "hook_commits.txt")
 if os.path.exists(hf):
     hooks_commits = [l.split()[0] for l in open(hf) if l.strip()]
+claimed = set(open(os.path.join(V, "tools", "claimed.txt")).read().split())
 for pid in props:
     p = os.path.join(V, "harness", pid.lower(), "check.json")
-    if not os.path.exists(p):
+    if pid not in claimed or not os.path.exists(p):
         na.append({"property_id": pid, "reason": "check not built yet in this round (planned in DESIGN.md section 2); not claimed until its harness exists and is silent on the unchanged tree"})
         continue
     c = json.load(open(p))
